@@ -207,7 +207,7 @@ class Run:
 # ------------------------------------------------------------------------------------------------ generators
 
 def gen_method(rng: random.Random, max_lines: int = 9, failing: bool = False, engine_cmds: bool = True,
-               waits: bool = True, bad_args: bool = False) -> str:
+               waits: bool = True, bad_args: bool = False, thresholds: bool = False) -> str:
     """Methods that keep several UOD commands of different durations in flight, from the main sequence and
     from Watch / Alarm bodies whose conditions are constant (true at once or never)."""
     cmds = ["CmdA", "CmdB", "CmdB", "CmdC", "CmdC", "CmdD"] + (["CmdF"] if failing else [])
@@ -220,6 +220,8 @@ def gen_method(rng: random.Random, max_lines: int = 9, failing: bool = False, en
         nonlocal mark
         x = rng.random()
         ind = "    " * depth
+        if thresholds and rng.random() < 0.15:
+            ind += rng.choice(["1.0 ", "2.0 ", "5.0 "])    # a threshold (minutes of block/scope time): waits long
         if x < 0.5:
             lines.append(ind + rng.choice(cmds))
         elif x < 0.68:
@@ -228,7 +230,8 @@ def gen_method(rng: random.Random, max_lines: int = 9, failing: bool = False, en
         elif x < 0.8 and waits:
             lines.append(ind + f"Wait: {rng.choice(['0.25', '0.5', '0.75'])}s")
         elif x < 0.86 and engine_cmds:
-            lines.append(ind + f"Simulate: T{rng.randrange(3)} = {rng.randrange(1, 4)}")
+            # T tags really are 0: `= 0` simulates a tag to the value it has
+            lines.append(ind + f"Simulate: T{rng.randrange(3)} = {rng.choice([0, 0, 1, 2, 3])}")
         elif x < 0.92 and engine_cmds:
             lines.append(ind + f"{rng.choice(['Pause', 'Hold'])}: {rng.choice(['0.25', '0.5'])}s")
         else:
@@ -291,6 +294,23 @@ def execute(case: dict[str, Any]) -> dict[str, Any]:
                         rec["skipped"] = True
                         out["requests"].append(rec)
                         continue
+                    elif sel[0] == "threshold":
+                        # an instruction that is waiting for its threshold (such items are not in the run log; the
+                        # record has an instance id all the same)
+                        waiting = []
+                        for n in run.engine.interpreter._program.get_all_nodes():
+                            if n.threshold is not None and not n.started and not n.completed:
+                                r0 = run.engine.tracking.runtimeinfo.get_record_by_node(n.id)
+                                if r0 is not None and r0.last_instance_id is not None:
+                                    waiting.append((n, r0.last_instance_id))
+                        if not waiting:
+                            rec["skipped"] = True
+                            out["requests"].append(rec)
+                            continue
+                        node, iid = waiting[sel[1] % len(waiting)]
+                        op[1] = iid
+                        rec.update(item=None, threshold_node=node.id, node_cls=type(node).__name__,
+                                   forcible=bool(node.forcible))
                     else:
                         op[1] = "no-such-id"
                         rec["item"] = None
@@ -333,6 +353,15 @@ def oracle_c11(res: dict[str, Any]) -> list[tuple[str, str]]:
                     kind = "same-command" if a[2] == b[2] else "overlapping-commands"
                     out.append((f"two-instances-execute-in-one-tick:{kind}",
                                 f"tick {t}: instance #{a[3]} of {a[2]} and instance #{b[3]} of {b[2]} both executed"))
+    # an instance that has ended (its exec raised or it completed) is finalized in that same tick
+    fin_tick = {ev[3]: ev[0] for ev in log if ev[1] == "final"}
+    for ev in log:
+        if ev[1] == "exec":
+            dur, fail = COMMANDS.get(ev[2], (2, -1))
+            ended = "raised" if fail == ev[4] else ("completed" if dur > 0 and ev[4] + 1 >= dur else None)
+            if ended and fin_tick.get(ev[3], 10 ** 9) > ev[0]:
+                out.append((f"{'failed' if ended == 'raised' else 'completed'}-instance-not-finalized",
+                            f"tick {ev[0]}: {ev[2]} #{ev[3]} {ended} in iteration {ev[4]}, no finalize in that tick"))
     # when a run ends (Stop / Restart completed) every instance that was initialised has been finalized
     for stop in res["stops"]:
         t = stop["tick"]
@@ -458,6 +487,20 @@ def oracle_c12(case: dict[str, Any], res: dict[str, Any]) -> list[tuple[str, str
         t = r["tick"]                      # the request arrives before tick index t (0-based)
         item = r.get("item")
         same = r["before"] == r["after"]
+        if r.get("threshold_node") is not None:
+            # a forced threshold instruction proceeds without waiting
+            if op == "force" and r["result"] == "ok":
+                window = [k for k in range(t, n_ticks) if res["ticks"][k]["sys"] == "Running" and
+                          not res["ticks"][k]["paused"] and not res["ticks"][k]["holding"]][:3]
+                if len(window) == 3 and window[-1] - t <= 3:
+                    seen = [node_at(k, r["threshold_node"]) for k in window]
+                    if all(nd is not None for nd in seen) and not any(nd[1] or nd[2] for nd in seen):
+                        out.append(("forced-threshold-still-waiting",
+                                    f"force of a {r['node_cls']} awaiting its threshold before tick {t + 1}: not started "
+                                    f"at tick {window[-1] + 1}"))
+            elif op == "force" and r.get("forcible") and r["result"] != "ok":
+                pass                       # offered-but-refused is not judged
+            continue
         if item is None:                   # an id nobody knows
             if not same:
                 out.append((f"{op}-of-unknown-id-changed-state", f"before tick {t + 1}"))
@@ -473,7 +516,8 @@ def oracle_c12(case: dict[str, Any], res: dict[str, Any]) -> list[tuple[str, str
             if r["result"] == "ok":
                 # a node that runs several times (Alarm body) has one set of node flags but one item per invocation
                 rep = ":repeated-node" if r.get("invocations", 1) > 1 or r.get("node_reset") else ""
-                out.append((f"unoffered-{op}-accepted:{site}{rep}", what + " was accepted"))
+                concl = ":concluded" if item[2] in ("completed", "cancelled", "failed") else ""
+                out.append((f"unoffered-{op}-accepted:{site}{concl}{rep}", what + " was accepted"))
             elif not same:
                 out.append((f"rejected-{op}-changed-state:{site}", what))
             continue
@@ -531,7 +575,7 @@ def oracle_c12(case: dict[str, Any], res: dict[str, Any]) -> list[tuple[str, str
                 if states and "completed" not in states:
                     out.append(("forced-wait-still-waiting", what + f": states {states} in the next three ticks"))
             elif cls == "WatchNode":
-                nd = node_at(window[-1], nid)
-                if nd is not None and not nd[5] and not nd[2]:
+                seen = [node_at(k, nid) for k in window]
+                if all(nd is not None for nd in seen) and not any(nd[5] or nd[2] for nd in seen):
                     out.append(("forced-watch-not-activated", what + f": not activated at tick {window[-1] + 1}"))
     return out
